@@ -354,12 +354,14 @@ Lemma fs_mixed_run :
   = Some [ROk; ROpen B"h"; RVal (firstn 4 val10); ROk; RVal (skipn 4 (content 2 10))].
 Proof. vm_compute. reflexivity. Qed.
 
-(* LFU: one entry larger than the size limit (or key limit 0) pops the empty heap *)
-Lemma lfu_panic_size : run [OSet B"a" (content 1 5) 5] (w_init PMem (LfuSize 4) 64) = None.
+(* regression: the former panic witnesses (entry larger than the size limit, key limit 0, fill goroutine) *)
+Lemma lfu_oversize_ok : run [OSet B"a" (content 1 5) 5; OGet B"a"] (w_init PMem (LfuSize 4) 64) = Some [ROk; RVal (content 1 5)].
 Proof. vm_compute. reflexivity. Qed.
-Lemma lfu_panic_keys : run [OSet B"a" (content 1 1) 1] (w_init PMem (LfuKeys 0) 64) = None.
+Lemma lfu_keys0_ok : run [OSet B"a" (content 1 1) 1; OSet B"b" (content 2 1) 1; OGet B"a"; OGet B"b"] (w_init PMem (LfuKeys 0) 64)
+  = Some [ROk; ROk; RMiss; RVal (content 2 1)].
 Proof. vm_compute. reflexivity. Qed.
-Lemma lfu_panic_fill : run [PInner B"a" (content 1 9); PGet B"a"] (w_init PMem (LfuSize 4) 64) = None.
+Lemma lfu_fill_ok : run [PInner B"a" (content 1 9); PGet B"a"; PGet B"a"] (w_init PMem (LfuSize 4) 64)
+  = Some [ROk; RVal (content 1 9); RVal (content 1 9)].
 Proof. vm_compute. reflexivity. Qed.
 
 (* part store, in-memory persistor: a miss fill that finishes after DeletePart re-inserts the deleted bytes *)
@@ -393,140 +395,130 @@ Lemma size_limit_exceeded :
   = Some 11.
 Proof. vm_compute. reflexivity. Qed.
 
-(* ---------- EvictNothing never panics ---------- *)
-Definition pol_none (w : world) : Prop := c_pol (w_c w) = PolNone.
+(* ---------- no operation panics: the eviction loop always terminates normally ---------- *)
+Lemma upd_length {A} i (x : A) l : length (upd i x l) = length l.
+Proof. revert i; induction l as [|y l IH]; intros [|i]; cbn; auto. Qed.
 
-Lemma track_set_none k sz c : c_pol c = PolNone -> exists c', c_track_set k sz c = Some c' /\ c_pol c' = PolNone.
-Proof. intros H. unfold c_track_set. rewrite H. cbn. eexists; split; reflexivity. Qed.
+Lemma hswap_length i j h : length (hswap i j h) = length h.
+Proof. unfold hswap. rewrite !upd_length. reflexivity. Qed.
 
-Lemma begin_none k hint c : c_pol c = PolNone -> exists c' w, c_begin k hint c = Some (c', w) /\ c_pol c' = PolNone.
+Lemma heap_down_length fuel : forall i n h, length (fst (heap_down fuel i n h)) = length h.
 Proof.
-  intros H. unfold c_begin. destruct (0 <=? hint)%Z.
-  - destruct (track_set_none k hint c H) as (c1 & -> & H1).
-    destruct (p_open (c_kind c1) k (c_p c1)) as [p' w]. eexists _, _; split; [reflexivity | exact H1].
-  - destruct (p_open (c_kind c) k (c_p c)) as [p' w]. eexists _, _; split; [reflexivity | exact H].
+  induction fuel as [|f IH]; intros i n h; cbn [heap_down]; [reflexivity|].
+  destruct (n <=? 2 * i + 1); [reflexivity|].
+  match goal with |- context [if negb ?b then _ else _] => destruct b end; cbn [negb]; [|reflexivity].
+  rewrite IH, hswap_length. reflexivity.
 Qed.
 
-Lemma chunk_none w chunk c : c_pol c = PolNone -> c_pol (fst (c_chunk w chunk c)) = PolNone.
-Proof. intros H. unfold c_chunk. destruct (p_write w chunk (c_p c)); cbn. exact H. Qed.
+Lemma heap_pop_eq h e h' : heap_pop h = Some (e, h') ->
+  h <> [] /\ h' = firstn (length h - 1) (fst (heap_down (length h) 0 (length h - 1) (hswap 0 (length h - 1) h))).
+Proof. destruct h as [|x h]; [discriminate|]. intros H. inversion H. split; [discriminate | reflexivity]. Qed.
 
-Lemma end_ok_none k hint w total c : c_pol c = PolNone -> exists c', c_end_ok k hint w total c = Some c' /\ c_pol c' = PolNone.
+Lemma heap_pop_length h e h' : heap_pop h = Some (e, h') -> S (length h') = length h.
 Proof.
-  intros H. unfold c_end_ok. destruct (0 <=? hint)%Z; [eexists; split; [reflexivity | exact H]|].
-  apply track_set_none. exact H.
+  intros H. apply heap_pop_eq in H as [Hn ->].
+  rewrite firstn_length, heap_down_length, hswap_length. destruct h; [contradiction | cbn [length]; lia].
 Qed.
 
-Lemma end_err_none k c : c_pol c = PolNone -> c_pol (c_end_err k c) = PolNone.
-Proof. intros H. unfold c_end_err; cbn. rewrite H. reflexivity. Qed.
-
-Lemma set_none k v hint fail c : c_pol c = PolNone -> exists c', c_set k v hint fail c = Some c' /\ c_pol c' = PolNone.
+Lemma evict_loop_total fuel : forall s acc, length (l_heap s) <= fuel -> exists r, evict_loop fuel s acc = Some r.
 Proof.
-  intros H. unfold c_set. destruct (begin_none k hint c H) as (c1 & w & -> & H1).
+  induction fuel as [|f IH]; intros s acc Hl.
+  - cbn [evict_loop]. destruct (should_evict s); [|eexists; reflexivity].
+    destruct (l_heap s) as [|x h] eqn:E; [cbn; eexists; reflexivity | cbn in Hl; lia].
+  - cbn [evict_loop]. destruct (should_evict s); [|eexists; reflexivity].
+    destruct (heap_pop (l_heap s)) as [[e h']|] eqn:E; [|eexists; reflexivity].
+    apply heap_pop_length in E. apply IH. cbn. lia.
+Qed.
+
+Lemma track_set_total k sz c : exists c', c_track_set k sz c = Some c'.
+Proof.
+  unfold c_track_set, pol_track_set. destruct (c_pol c) as [|s]; [eexists; reflexivity|].
+  unfold lfu_track_set.
+  destruct (evict_loop_total (S (length (l_heap (ck_track_set k sz s)))) (ck_track_set k sz s) []) as [[ev s2] ->]; [lia|].
+  eexists; reflexivity.
+Qed.
+
+Lemma begin_total k hint c : exists c' w, c_begin k hint c = Some (c', w).
+Proof.
+  unfold c_begin. destruct (0 <=? hint)%Z.
+  - destruct (track_set_total k hint c) as (c1 & ->).
+    destruct (p_open (c_kind c1) k (c_p c1)) as [p' w]. eexists _, _; reflexivity.
+  - destruct (p_open (c_kind c) k (c_p c)) as [p' w]. eexists _, _; reflexivity.
+Qed.
+
+Lemma end_ok_total k hint w total c : exists c', c_end_ok k hint w total c = Some c'.
+Proof.
+  unfold c_end_ok. destruct (0 <=? hint)%Z; [eexists; reflexivity | apply track_set_total].
+Qed.
+
+Lemma set_total k v hint fail c : exists c', c_set k v hint fail c = Some c'.
+Proof.
+  unfold c_set. destruct (begin_total k hint c) as (c1 & w & ->).
   destruct fail as [n|].
-  - pose proof (chunk_none w (firstn n v) c1 H1) as H2. destruct (c_chunk w (firstn n v) c1) as [c2 w2]; cbn in H2.
-    eexists; split; [reflexivity | apply end_err_none, H2].
-  - pose proof (chunk_none w v c1 H1) as H2. destruct (c_chunk w v c1) as [c2 w2]; cbn in H2.
-    apply end_ok_none, H2.
+  - destruct (c_chunk w (firstn n v) c1) as [c2 w2]. eexists; reflexivity.
+  - destruct (c_chunk w v c1) as [c2 w2]. apply end_ok_total.
 Qed.
 
-Lemma get_none k c : c_pol c = PolNone -> c_pol (fst (c_get k c)) = PolNone.
-Proof. intros H. cbn. rewrite H. reflexivity. Qed.
-
-Lemma fill_fail_none sid ov w : pol_none w -> pol_none (fill_fail sid ov w).
+Lemma fill_ok_total sid w : exists w', fill_ok sid w = Some w'.
 Proof.
-  unfold pol_none, fill_fail. intros H. destruct (nlookup sid (w_sets w)); [|exact H].
-  destruct ov; cbn; rewrite H; reflexivity.
+  unfold fill_ok. destruct (nlookup sid (w_sets w)) as [pd|]; [|eexists; reflexivity].
+  destruct (end_ok_total (pd_key pd) (pd_hint pd) (pd_wr pd) (pd_total pd) (w_c w)) as (c' & ->). eexists; reflexivity.
 Qed.
 
-Lemma feed_none sid c w : pol_none w -> pol_none (feed sid c w).
+Lemma h_read_total hd n w : exists c hd' w', h_read hd n w = Some (c, hd', w').
 Proof.
-  unfold pol_none, feed. intros H. destruct (nlookup sid (w_sets w)) as [pd|]; [|exact H].
-  pose proof (chunk_none (pd_wr pd) c (w_c w) H) as H2. destruct (c_chunk (pd_wr pd) c (w_c w)); cbn in *. exact H2.
+  destruct hd as [r | data off | data off written active sid]; cbn [h_read].
+  - destruct n as [n|]; [destruct (rd_read r n (c_p (w_c w))) |]; eexists _, _, _; reflexivity.
+  - eexists _, _, _; reflexivity.
+  - match goal with |- context [if ?b then match fill_ok sid ?w1 with _ => _ end else _] =>
+      destruct b; [destruct (fill_ok_total sid w1) as (w2 & ->)|] end; eexists _, _, _; reflexivity.
 Qed.
 
-Lemma fill_ok_none sid w : pol_none w -> exists w', fill_ok sid w = Some w' /\ pol_none w'.
+Lemma step1_total o w : exists r w', step1 o w = Some (r, w').
 Proof.
-  unfold pol_none, fill_ok. intros H. destruct (nlookup sid (w_sets w)) as [pd|]; [|eexists; split; [reflexivity | exact H]].
-  destruct (end_ok_none (pd_key pd) (pd_hint pd) (pd_wr pd) (pd_total pd) (w_c w) H) as (c' & -> & H').
-  eexists; split; [reflexivity | exact H'].
-Qed.
-
-Lemma h_read_none hd n w : pol_none w -> exists c hd' w', h_read hd n w = Some (c, hd', w') /\ pol_none w'.
-Proof.
-  intros H. destruct hd as [r | data off | data off written active sid]; cbn [h_read].
-  - destruct n as [n|]; [destruct (rd_read r n (c_p (w_c w))) |]; eexists _, _, _; split; try reflexivity; exact H.
-  - eexists _, _, _; split; [reflexivity | exact H].
-  - set (c := match n with Some n0 => firstn n0 (skipn off data) | None => skipn off data end).
-    set (eof := match n with Some n0 => length c <? n0 | None => true end).
-    set (written' := if active && (0 <? length c) then written + length c else written).
-    set (over := active && (0 <? length c) && (w_maxpart w <? written')).
-    set (w1 := if active && (0 <? length c) then if over then fill_fail sid true w else feed sid c w else w).
-    assert (pol_none w1) as H1.
-    { unfold w1. destruct (active && (0 <? length c)); [|exact H].
-      destruct over; [apply fill_fail_none | apply feed_none]; exact H. }
-    destruct (eof && (active && negb over)).
-    + destruct (fill_ok_none sid w1 H1) as (w2 & -> & H2). eexists _, _, _; split; [reflexivity | exact H2].
-    + eexists _, _, _; split; [reflexivity | exact H1].
-Qed.
-
-Lemma h_close_none hd w : pol_none w -> pol_none (h_close hd w).
-Proof.
-  intros H. destruct hd as [r | data off | data off written [|] sid]; cbn; try exact H. apply fill_fail_none, H.
-Qed.
-
-Lemma step1_none o w : pol_none w -> exists r w', step1 o w = Some (r, w') /\ pol_none w'.
-Proof.
-  intros H. unfold pol_none in H. destruct o; cbn [step1].
-  - destruct (set_none k v hint None (w_c w) H) as (c & -> & Hc). eexists _, _; split; [reflexivity | exact Hc].
-  - destruct (set_none k v hint (Some n) (w_c w) H) as (c & -> & Hc). eexists _, _; split; [reflexivity | exact Hc].
-  - pose proof (get_none k (w_c w) H) as Hg. destruct (c_get k (w_c w)) as [c [r|]]; cbn in Hg;
-      eexists _, _; (split; [reflexivity | exact Hg]).
-  - eexists _, _; split; [reflexivity | apply end_err_none, H].
-  - destruct (nlookup h (w_handles w)); [eexists _, _; split; [reflexivity | exact H]|].
-    pose proof (get_none k (w_c w) H) as Hg. destruct (c_get k (w_c w)) as [c [r|]]; cbn in Hg;
-      eexists _, _; (split; [reflexivity | exact Hg]).
-  - destruct (nlookup s (w_sets w)); [eexists _, _; split; [reflexivity | exact H]|].
-    destruct (begin_none k hint (w_c w) H) as (c & wr0 & -> & Hc). eexists _, _; split; [reflexivity | exact Hc].
-  - destruct (nlookup s (w_sets w)) as [pd|]; [|eexists _, _; split; [reflexivity | exact H]].
-    eexists _, _; split; [reflexivity|]. destruct (firstn n (pd_src pd)); [exact H | apply feed_none, H].
-  - destruct (nlookup s (w_sets w)) as [pd|]; [|eexists _, _; split; [reflexivity | exact H]].
-    destruct (end_ok_none (pd_key pd) (pd_hint pd) (pd_wr pd) (pd_total pd) (w_c w) H) as (c & -> & Hc).
-    eexists _, _; split; [reflexivity | exact Hc].
-  - destruct (nlookup s (w_sets w)) as [pd|]; eexists _, _; (split; [reflexivity|]); [apply end_err_none, H | exact H].
-  - destruct (nlookup h (w_handles w)) as [hd|]; [|eexists _, _; split; [reflexivity | exact H]].
-    destruct (h_read_none hd (Some n) w H) as (c & hd' & w' & -> & H'). eexists _, _; split; [reflexivity | exact H'].
-  - destruct (nlookup h (w_handles w)) as [hd|]; [|eexists _, _; split; [reflexivity | exact H]].
-    destruct (h_read_none hd None w H) as (c & hd' & w' & -> & H'). eexists _, _; split; [reflexivity|].
-    apply (h_close_none hd' w') in H'. exact H'.
-  - destruct (nlookup h (w_handles w)) as [hd|]; eexists _, _; (split; [reflexivity|]); [|exact H].
-    apply (h_close_none hd w) in H. exact H.
+  destruct o; cbn [step1].
+  - destruct (set_total k v hint None (w_c w)) as (c & ->). eexists _, _; reflexivity.
+  - destruct (set_total k v hint (Some n) (w_c w)) as (c & ->). eexists _, _; reflexivity.
+  - destruct (c_get k (w_c w)) as [c [r|]]; eexists _, _; reflexivity.
+  - eexists _, _; reflexivity.
+  - destruct (nlookup h (w_handles w)); [eexists _, _; reflexivity|].
+    destruct (c_get k (w_c w)) as [c [r|]]; eexists _, _; reflexivity.
+  - destruct (nlookup s (w_sets w)); [eexists _, _; reflexivity|].
+    destruct (begin_total k hint (w_c w)) as (c & wr0 & ->). eexists _, _; reflexivity.
+  - destruct (nlookup s (w_sets w)) as [pd|]; eexists _, _; reflexivity.
+  - destruct (nlookup s (w_sets w)) as [pd|]; [|eexists _, _; reflexivity].
+    destruct (end_ok_total (pd_key pd) (pd_hint pd) (pd_wr pd) (pd_total pd) (w_c w)) as (c & ->). eexists _, _; reflexivity.
+  - destruct (nlookup s (w_sets w)) as [pd|]; eexists _, _; reflexivity.
+  - destruct (nlookup h (w_handles w)) as [hd|]; [|eexists _, _; reflexivity].
+    destruct (h_read_total hd (Some n) w) as (c & hd' & w' & ->). eexists _, _; reflexivity.
+  - destruct (nlookup h (w_handles w)) as [hd|]; [|eexists _, _; reflexivity].
+    destruct (h_read_total hd None w) as (c & hd' & w' & ->). eexists _, _; reflexivity.
+  - destruct (nlookup h (w_handles w)) as [hd|]; eexists _, _; reflexivity.
   - destruct (length v <=? w_maxpart w).
-    + destruct (set_none id v (Z.of_nat (length v)) None (w_c w) H) as (c & Hs & Hc). cbn. rewrite Hs.
-      eexists _, _; split; [reflexivity | exact Hc].
-    + eexists _, _; split; [reflexivity|]. apply end_err_none, H.
-  - destruct (alookup id (w_inner w)); eexists _, _; (split; [reflexivity | exact H]).
-  - destruct (alookup id (w_inner w)); eexists _, _; (split; [reflexivity|]); [apply end_err_none, H | exact H].
-  - destruct (nlookup h (w_handles w)); [eexists _, _; split; [reflexivity | exact H]|].
-    pose proof (get_none id (w_c w) H) as Hg. destruct (c_get id (w_c w)) as [c [r|]]; cbn in Hg.
-    + eexists _, _; split; [reflexivity | exact Hg].
-    + cbn [set_c w_inner w_hints w_c w_handles w_sets w_nextsid].
-      destruct (alookup id (w_inner w)) as [data|]; [|eexists _, _; split; [reflexivity | exact Hg]].
-      destruct (mem_bytes id (w_hints w)); [eexists _, _; split; [reflexivity | exact Hg]|].
-      destruct (begin_none id (-1) c Hg) as (c2 & wr0 & -> & Hc2). eexists _, _; split; [reflexivity | exact Hc2].
-  - eexists _, _; split; [reflexivity | exact H].
+    + match goal with |- context [c_set id v ?hint None ?c] => destruct (set_total id v hint None c) as (c' & ->) end.
+      eexists _, _; reflexivity.
+    + eexists _, _; reflexivity.
+  - destruct (alookup id (w_inner w)); eexists _, _; reflexivity.
+  - destruct (alookup id (w_inner w)); eexists _, _; reflexivity.
+  - destruct (nlookup h (w_handles w)); [eexists _, _; reflexivity|].
+    destruct (c_get id (w_c w)) as [c [r|]]; [eexists _, _; reflexivity|].
+    cbn [set_c w_inner w_hints w_c w_handles w_sets w_nextsid].
+    destruct (alookup id (w_inner w)) as [data|]; [|eexists _, _; reflexivity].
+    destruct (mem_bytes id (w_hints w)); [eexists _, _; reflexivity|].
+    destruct (begin_total id (-1) c) as (c2 & wr0 & ->). eexists _, _; reflexivity.
+  - eexists _, _; reflexivity.
 Qed.
 
-Lemma step_none o w : pol_none w -> exists r w', step o w = Some (r, w') /\ pol_none w'.
+Lemma step_total o w : exists r w', step o w = Some (r, w').
 Proof.
-  intros H. destruct o; try apply step1_none; try exact H. cbn [step].
-  destruct (step1_none (POpen tmp_handle id) w H) as (r & w1 & -> & H1).
-  destruct r; try (eexists _, _; split; [reflexivity | exact H1]).
-  apply step1_none, H1.
+  destruct o; try apply step1_total. cbn [step].
+  destruct (step1_total (POpen tmp_handle id) w) as (r & w1 & ->).
+  destruct r; try (eexists _, _; reflexivity). apply step1_total.
 Qed.
 
-Lemma run_none ops : forall w, pol_none w -> run ops w <> None.
+Lemma run_total ops : forall w, run ops w <> None.
 Proof.
-  induction ops as [|o ops IH]; intros w H; cbn; [discriminate|].
-  destruct (step_none o w H) as (r & w' & -> & H'). specialize (IH w' H').
+  induction ops as [|o ops IH]; intros w; cbn; [discriminate|].
+  destruct (step_total o w) as (r & w' & ->). specialize (IH w').
   destruct (run ops w'); [discriminate | contradiction].
 Qed.
